@@ -10,6 +10,10 @@ from .interp import (Interp, World, IRaise, Infeasible, OutOfReach, PathEnd,
 from . import values
 
 
+FEAS_RLIMIT = int(__import__("os").environ.get("PYVC_FEAS_RLIMIT", "250000"))
+DEBUG_RLIMIT = bool(__import__("os").environ.get("PYVC_DEBUG_RLIMIT"))
+
+
 class Obligation:
     def __init__(self, name, verdict, secs, path, model=None, goal=None, note=None, backend="z3"):
         self.name = name
@@ -42,9 +46,9 @@ class PathRun:
         self.trace = []
         # E-matching only (mbqi off): `unsat` is a proof; `sat` is a *candidate*
         # counter-model that must be confirmed (native replay or a complete solver run)
-        self.solver = smt.new_solver(explorer.timeout_ms)
-        self.solver.set("mbqi", False)
+        # (a fresh solver per query: z3's incremental mode handles quantifier patterns worse)
         self.obligations = []
+        self._sat_cache = {}
         self.assumed = []
         self.notes = []
         self.dead = False
@@ -55,17 +59,40 @@ class PathRun:
             if not f:
                 raise Infeasible()
             return
-        self.solver.add(f)
         self.assumed.append(f)
+
+    def solve(self, extra=(), timeout_ms=None, rlimit=None):
+        s = smt.new_solver(timeout_ms or self.explorer.timeout_ms)
+        s.set("mbqi", False)
+        # second line of defence: z3 sometimes ignores wall-clock timeouts; rlimit is deterministic
+        s.set("rlimit", rlimit or int((timeout_ms or self.explorer.timeout_ms) * 3000))
+        s.add(self.assumed)
+        for x in extra:
+            s.add(x)
+        t0 = time.time()
+        r = s.check()
+        dt = time.time() - t0
+        if dt > 8:
+            import sys
+            sys.stderr.write("SLOW-QUERY %.1fs %s timeout=%s rlimit=%s path=%s n_assumed=%d\n"
+                             % (dt, r, timeout_ms, rlimit, self.path_id(), len(self.assumed)))
+        return s, r
 
     def sat(self, cond):
         """May the path condition hold together with `cond`?  unsat answers are
         proofs (pruning is sound); anything else counts as feasible."""
-        self.solver.set("timeout", 3000)
-        try:
-            r = smt.check(self.solver, cond)
-        finally:
-            self.solver.set("timeout", self.explorer.timeout_ms)
+        key = (len(self.assumed), cond.get_id() if hasattr(cond, "get_id") else cond)
+        if key in self._sat_cache:
+            return self._sat_cache[key]
+        t0 = time.time()
+        s, r = self.solve([cond], 5000, rlimit=FEAS_RLIMIT)
+        smt.STATS.add(smt.Query("feasibility", str(r), time.time() - t0, "z3", "feasibility"))
+        if DEBUG_RLIMIT:
+            try:
+                print("RL", str(r), [v for k, v in s.statistics() if k == "rlimit count"], round(time.time() - t0, 3))
+            except Exception:
+                pass
+        self._sat_cache[key] = (r != z3.unsat)
         return r != z3.unsat
 
     def fork(self, cond):
@@ -84,7 +111,7 @@ class PathRun:
             self.assume(cond if d[1] else z3.Not(cond))
             return d[1]
         can_t = self.sat(cond)
-        can_f = self.sat(z3.Not(cond))
+        can_f = self.sat(z3.Not(cond)) if can_t else True
         if can_t and can_f:
             self.trace.append(("f", True, False))
             self.explorer.pending.append(self.trace[:-1] + [("f", False, False)])
@@ -127,15 +154,14 @@ class PathRun:
             ob = Obligation(name, "discharged", 0.0, self.path_id(), note="trivial after simplification")
             self.obligations.append(ob)
             return ob
-        self.solver.push()
-        self.solver.add(z3.Not(goal))
-        r = self.solver.check()
+        solver, r = self.solve([z3.Not(goal)])
         secs = time.time() - t0
         model = None
         wit = None
+        m = None
         if r != z3.unsat:
             try:
-                m = self.minimized_model()
+                m = self.minimized_model(solver, [z3.Not(goal)])
             except z3.Z3Exception:
                 m = None
         if r != z3.unsat and m is not None:
@@ -152,13 +178,7 @@ class PathRun:
                     wit = {"witness_error": repr(e)}
         reason = None
         if r == z3.unknown:
-            reason = self.solver.reason_unknown()
-            if self.explorer.alt_solver is not None:
-                r2, secs2 = self.explorer.alt_solver(self.solver)
-                if r2 == "unsat":
-                    r = z3.unsat
-                    note = (note or "") + " [cvc5]"
-        self.solver.pop()
+            reason = solver.reason_unknown()
         smt.STATS.add(smt.Query(name, str(r), secs, "z3", "obligation"))
         verdict = "discharged" if r == z3.unsat else ("refuted" if r == z3.sat else "undecided")
         ob = Obligation(name, verdict, secs, self.path_id(), model, None,
@@ -175,33 +195,26 @@ class PathRun:
             self.assume(goal)
         return ob
 
-    def minimized_model(self):
+    def minimized_model(self, solver, extra):
         """Prefer small counter-models: try the explorer's size bounds."""
-        m = self.solver.model()
+        m = solver.model()
         for bound in (2, 4):
             terms = [t for t in self.explorer.minimize]
             if not terms:
                 break
-            self.solver.push()
-            for t in terms:
-                self.solver.add(t <= bound)
-            self.solver.set("timeout", 3000)
-            r = self.solver.check()
-            self.solver.set("timeout", self.explorer.timeout_ms)
+            s2, r = self.solve(list(extra) + [t <= bound for t in terms], 3000)
             if r != z3.unsat:
                 try:
-                    m = self.solver.model()
-                    self.solver.pop()
+                    m = s2.model()
                     break
                 except z3.Z3Exception:
                     pass
-            self.solver.pop()
         return m
 
     def fail(self, name, note, witness=None):
         """An obligation that fails by reaching this point (path is feasible)."""
         name = self.explorer.prefix + name
-        r = self.solver.check()
+        solver, r = self.solve()
         if r == z3.unsat:
             raise Infeasible()
         model = None
@@ -209,7 +222,7 @@ class PathRun:
         m = None
         if r != z3.unsat:
             try:
-                m = self.minimized_model()
+                m = self.minimized_model(solver, [])
             except z3.Z3Exception:
                 m = None
         if m is not None:
@@ -231,16 +244,13 @@ class PathRun:
     def canary(self, name, goal):
         """A deliberately false claim pushed through the same pipeline: it must NOT be
         provable (guards against a contradictory path condition / vacuous harness)."""
-        self.solver.push()
-        self.solver.add(z3.Not(goal))
-        r = self.solver.check()
-        self.solver.pop()
+        solver, r = self.solve([z3.Not(goal)], 5000, rlimit=FEAS_RLIMIT)
         self.explorer.canaries.append({"name": self.explorer.prefix + name, "solver": str(r), "ok": r != z3.unsat,
                                        "path": self.path_id()})
 
     def cover(self, name):
         """Reachability check (vacuity guard): the path condition is satisfiable here."""
-        r = self.solver.check()
+        solver, r = self.solve((), 5000, rlimit=FEAS_RLIMIT)
         self.explorer.covers.append((self.explorer.prefix + name, str(r), self.path_id()))
         return r == z3.sat
 
